@@ -87,6 +87,9 @@ def convert4To2rankTensor(c4):
         c2[i,j] = c4[vMap[i][0], vMap[i][1], vMap[j][0], vMap[j][1]]
     return c2
 
+#Number of times each Voigt component appears in a double contraction of symmetric tensors (shear components appear twice)
+VOIGT_SHEAR_WEIGHTS = np.array([1, 1, 1, 2, 2, 2])
+
 def invert4rankTensor(c4):
     '''
     Inverts 4th rank tensor to give stiffness tensor
@@ -94,7 +97,7 @@ def invert4rankTensor(c4):
     This is done by converting to 2nd rank, inverting, then converting back to 4th rank
     '''
     c2 = convert4To2rankTensor(c4)
-    return convert2To4rankTensor(np.linalg.inv(c2))
+    return convert2To4rankTensor(np.linalg.inv(c2) / np.outer(VOIGT_SHEAR_WEIGHTS, VOIGT_SHEAR_WEIGHTS))
 
 def convertVecTo2rankTensor(v):
     '''
@@ -573,8 +576,9 @@ class EllipsoidalEnergyDescription(StrainEnergyDescriptionBase):
         V = 4*np.pi/3 * np.prod(radius)
         S = convert4To2rankTensor(self.Sijmn(self.Dijkl(radius, c4)))
         eigFlat = convert2rankToVec(eigenstrain)
-        multTerm = np.matmul(c2, S - np.eye(6))
-        return -0.5 * V * np.matmul(eigFlat, np.matmul(multTerm, eigFlat))
+        w = VOIGT_SHEAR_WEIGHTS
+        stress = np.matmul(c2, w * (np.matmul(S, w * eigFlat) - eigFlat))
+        return -0.5 * V * np.matmul(w * eigFlat, stress)
 
     def strainEnergyBohm(self, radius):
         '''
@@ -604,11 +608,12 @@ class EllipsoidalEnergyDescription(StrainEnergyDescriptionBase):
         V = 4*np.pi/3 * np.prod(radius)
         S = convert4To2rankTensor(self.Sijmn(self.Dijkl(radius, cM4)))
         eigFlat = convert2rankToVec(eigenstrain)
-        invTerm = np.linalg.inv(np.matmul(cP2 - cM2, S) + cM2)
-        multTerm = np.matmul(invTerm, cP2)
-        stressC = np.matmul(cM2, np.matmul(np.matmul(S, multTerm), eigFlat))
-        stress0 = np.matmul(cM2, np.matmul(multTerm, eigFlat))
-        return -0.5 * V * np.matmul(eigFlat, stressC - stress0)
+        w = VOIGT_SHEAR_WEIGHTS
+        invTerm = np.linalg.inv(np.matmul((cP2 - cM2) * w, S) + cM2) / np.outer(w, w)
+        strain0 = np.matmul(invTerm * w, np.matmul(cP2, w * eigFlat))
+        stressC = np.matmul(cM2, w * np.matmul(S, w * strain0))
+        stress0 = np.matmul(cM2, w * strain0)
+        return -0.5 * V * np.matmul(w * eigFlat, stressC - stress0)
 
     def computeStrainEnergy(self, radius):
         return self.strainEnergyBohm(radius)
@@ -964,7 +969,7 @@ class StrainEnergy:
         '''
         if stress.any() and cM2.any():
             flatStress = convert2rankToVec(stress)
-            flatStrain = np.matmul(np.linalg.inv(cM2), flatStress)
+            flatStrain = np.matmul(np.linalg.inv(cM2), flatStress) / VOIGT_SHEAR_WEIGHTS
             return convertVecTo2rankTensor(flatStrain)
         else:
             return np.zeros((3,3))
